@@ -54,6 +54,8 @@ pub struct Model {
     /// insert/get/contains_key/invalidate
     pub excess_ok: bool,
     pub advances: u32,
+    /// S: a full maintenance run (sync) was the last thing that happened
+    pub maintained: bool,
 }
 
 impl Model {
@@ -69,6 +71,7 @@ impl Model {
             obligation: None,
             excess_ok: false,
             advances: 0,
+            maintained: true,
         }
     }
 
@@ -354,6 +357,7 @@ pub fn canon_impl(c: &mut Canon, s: &Snapshot, now: Instant, model: Option<&Mode
             }
         }
         c.u8(m.excess_ok as u8);
+        c.u8(m.maintained as u8);
         c.u32(m.advances);
         c.u8((m.inv_calls > 0) as u8);
     }
@@ -718,6 +722,13 @@ pub fn step(cfg: &Cfg, sut: &mut Sut, m: &mut Model, pre: &Snapshot, op: Op, has
         m.advances += 1;
     }
     let now = m.now;
+    if !u {
+        match op {
+            Op::Sync => m.maintained = true,
+            Op::Con(_) | Op::Iter => {}
+            _ => m.maintained = cfg.autosync,
+        }
+    }
 
     let upper = |m: &Model, k: u8, seen: Option<u32>, how: &str, viol: &mut Vec<Violation>| {
         // a lookup produced something for k (seen = value id if known)
@@ -858,10 +869,13 @@ pub fn step(cfg: &Cfg, sut: &mut Sut, m: &mut Model, pre: &Snapshot, op: Op, has
                         }
                     }
                 }
-                if settled(cfg, quiescent) && !cfg.has_expiry() && items.len() as u64 != post.entry_count {
+                let same_reading = !u
+                    && post.valid_after.is_some()
+                    && post.entries.iter().any(|e| e.last_accessed >= post.valid_after && e.last_modified < post.valid_after);
+                if settled(cfg, quiescent) && (u || m.maintained) && !cfg.has_expiry() && items.len() as u64 != post.entry_count {
                     viol.push(v(
                         "C10",
-                        format!("{kdn}:entry_count!=iter-count"),
+                        format!("{kdn}:entry_count!=iter-count:{}", if same_reading { "read-at-the-reading-of-invalidate_all" } else { "other" }),
                         format!("no expiry configured, entry_count()={} but iteration yields {} entries", post.entry_count, items.len()),
                     ));
                 }
@@ -959,7 +973,13 @@ pub fn step(cfg: &Cfg, sut: &mut Sut, m: &mut Model, pre: &Snapshot, op: Op, has
     }
 
     // ---- C10: counters equal what is physically held
-    if settled(cfg, quiescent) {
+    // (on S a disagreement with what maintenance has admitted is reported by the
+    // every-snapshot clause below with its call site; not twice)
+    let s_drift = !u && {
+        let (want_ec, want_ws) = admitted_accounting(&post);
+        post.entry_count != want_ec || post.weighted_size != want_ws
+    };
+    if settled(cfg, quiescent) && !s_drift {
         if post.entry_count != post.entries.len() as u64 {
             viol.push(v(
                 "C10",
@@ -974,6 +994,69 @@ pub fn step(cfg: &Cfg, sut: &mut Sut, m: &mut Model, pre: &Snapshot, op: Op, has
                 format!("{kdn}:weighted_size!=sum_weights:after={okind}"),
                 format!("after {okind}: weighted_size()={} but the stored weights sum to {total}", post.weighted_size),
             ));
+        }
+    }
+
+    // ---- C10 (S, every snapshot): the published counters equal what maintenance has
+    // admitted so far: one per admitted entry, weighing what it weighed when it was
+    // last accounted (the old weight of its first queued update, else its weight).
+    if !u {
+        let (want_ec, want_ws) = admitted_accounting(&post);
+        if post.entry_count != want_ec || post.weighted_size != want_ws {
+            // call-site discriminator: an admitted entry left the cache in this step
+            // while an update changing its weight was still queued
+            let pre_adm = admitted_infos(pre);
+            let post_adm = admitted_infos(&post);
+            let mut reweighed_victim = false;
+            for op in &pre.write_ops {
+                if let OpSnap::Upsert { entry, old_weight, new_weight, .. } = op {
+                    if old_weight != new_weight && pre_adm.contains_key(&entry.info_addr) && !post_adm.contains_key(&entry.info_addr) {
+                        let invalidated = pre.write_ops.iter().any(|o| matches!(o, OpSnap::Remove { entry: e } if e.info_addr == entry.info_addr));
+                        if !invalidated {
+                            reweighed_victim = true;
+                        }
+                    }
+                }
+            }
+            // the update may also be the current call itself: it changes the weight in
+            // the shared entry info, then runs maintenance BEFORE queueing its own op
+            if let Op::Ins(k, w) = op {
+                if let Some(e) = pre_phys.get(&k) {
+                    if e.admitted && e.weight != cfg.pw(w as u32) && !post_adm.contains_key(&e.info_addr) {
+                        reweighed_victim = true;
+                    }
+                }
+            }
+            let site = if reweighed_victim { "entry-removed-while-reweigh-queued" } else { "other" };
+            viol.push(v(
+                "C10",
+                format!("S:counters-drift:{site}"),
+                format!(
+                    "after {okind}: entry_count()={} weighted_size()={} but maintenance has admitted {want_ec} entries weighing {want_ws} (map {:?})",
+                    post.entry_count,
+                    post.weighted_size,
+                    post.entries.iter().map(|e| (e.key, e.weight, e.admitted)).collect::<Vec<_>>()
+                ),
+            ));
+        }
+    }
+
+    // ---- C11: invalidated entries are released once maintenance has run
+    if u || m.maintained {
+        for e in &post.entries {
+            let km = &m.keys[e.key as usize];
+            if !km.has || km.inval {
+                let same_reading = !u && post.valid_after.is_some() && e.last_accessed >= post.valid_after && e.last_modified < post.valid_after;
+                let site = if same_reading { "read-at-the-reading-of-invalidate_all" } else { "other" };
+                let d = format!(
+                    "after {okind}: key {} was invalidated but its entry (value {}) is still held after maintenance",
+                    e.key, e.value
+                );
+                viol.push(v("C11", format!("{kdn}:invalidated-entry-kept:{site}"), d.clone()));
+                if !cfg.has_expiry() {
+                    viol.push(v("C10", format!("{kdn}:counts-invalidated-entry:{site}"), d));
+                }
+            }
         }
     }
 
@@ -1066,6 +1149,43 @@ pub fn step(cfg: &Cfg, sut: &mut Sut, m: &mut Model, pre: &Snapshot, op: Op, has
     }
 
     StepOut { obs, post: Some(post), viol, pending, dead: false }
+}
+
+/// info address -> (weight as last accounted by maintenance) for admitted entries,
+/// collected from the map and from everything the queued ops reference.
+fn admitted_infos(s: &Snapshot) -> BTreeMap<usize, u64> {
+    let mut out: BTreeMap<usize, u64> = BTreeMap::new();
+    let mut note = |e: &EntrySnap| {
+        if e.admitted {
+            out.entry(e.info_addr).or_insert(e.weight as u64);
+        }
+    };
+    for e in &s.entries {
+        note(e);
+    }
+    for op in s.read_ops.iter().chain(s.write_ops.iter()) {
+        match op {
+            OpSnap::Hit { entry, .. } | OpSnap::Upsert { entry, .. } | OpSnap::Remove { entry } => note(entry),
+            OpSnap::Miss { .. } => {}
+        }
+    }
+    // an update still queued has not been accounted: the entry counts with the old
+    // weight of its FIRST queued update
+    let mut seen: Vec<usize> = Vec::new();
+    for op in &s.write_ops {
+        if let OpSnap::Upsert { entry, old_weight, .. } = op {
+            if entry.admitted && !seen.contains(&entry.info_addr) {
+                seen.push(entry.info_addr);
+                out.insert(entry.info_addr, *old_weight as u64);
+            }
+        }
+    }
+    out
+}
+
+fn admitted_accounting(s: &Snapshot) -> (u64, u64) {
+    let a = admitted_infos(s);
+    (a.len() as u64, a.values().sum())
 }
 
 fn settled(cfg: &Cfg, quiescent: bool) -> bool {
